@@ -263,7 +263,7 @@ func genC06Case(r *hx.Rand) (coreCase, []string, bool) {
 		return coreCase{}, nil, false
 	}
 	oo := fed.SafeOps()
-	oo.EntityIDArgs = true
+	oo.EntityIDArgs, oo.IDVar = true, true
 	op := fed.GenOp(r, cf.Merged.Schema, cf.F.Data, "mutation", oo)
 	if op == nil {
 		return coreCase{}, nil, false
